@@ -1,12 +1,12 @@
 HOOK_COMMITS = ["358b29f", "6cd9f5c", "5546540"]
-FIX_COMMITS = ["923416a"]
+FIX_COMMITS = ["923416a", "a6cf66b"]
 
 NOTES = ("All checks are ./check <id> --tier quick|thorough (runner/vrunner.py). Every engine is rebuilt "
          "incrementally from /repo's working tree with the hook guard on. Oracle = independent spec model "
          "spec/b3spec (anchored against a second Python model and the published vectors on every run).")
 
 ENGINES_DOC = [
-    {"name": "core", "path": "engines/core", "serves_properties": ["C01", "C02", "C10"],
+    {"name": "core", "path": "engines/core", "serves_properties": ["C01", "C02", "C03", "C09", "C10"],
      "kind_free_text": "Rust; drives the real blake3 crate (path dependency on /repo) with forced SIMD levels; bounded-exhaustive enumeration and explicit-state BFS over the real Hasher/OutputReader"},
 ]
 
@@ -32,6 +32,19 @@ CHECKS["C10"] = {
     "technique": "explicit-state BFS over the real Hasher with reset and set_input_offset as operations; differential oracle = freshly constructed hasher",
     "text": "The C02 state space extended with reset() from every reachable state and set_input_offset at count()==0 for offsets up to 2^42. Every post-reset state must equal, field for field, a newly constructed hasher of the same mode (and therefore merges with the initial state and is explored again); clone independence is checked on every state in both directions.",
     "note": "Trusted: b3spec, H4 hook. Offsets limited to {1024, 3072, 4096, 65536, 2^42, 2^42+2048}.",
+}
+
+CHECKS["C03"] = {
+    "engine": "core/xof_bfs", "category": "model_checking", "design_ref": "DESIGN.md 3/C03",
+    "technique": "explicit-state BFS over the real OutputReader merged on the complete reader state; every byte vs the spec stream",
+    "text": "From each root (nine input lengths x three modes, produced by finalize_xof and by hazmat::merge_subtrees_root_xof, at every SIMD level) a breadth-first search applies fill, Read::read, set_position and seek(Start/Current/End) with sizes and positions on both sides of every block boundary, of block counter 2^32 (all sixteen xof_many lanes) and of the 2^64-1 limit, from every reachable reader state up to a depth bound. Every byte returned is compared with the spec stream, position() after every step, failed seeks must leave the complete state unchanged, Read must equal fill and Seek(Start) must equal set_position, clones must be independent.",
+    "note": "Trusted: b3spec. Depth bound 3-4 (quick) / 5-6 (thorough); reads only while p+n <= 2^64-1.",
+}
+CHECKS["C09"] = {
+    "engine": "core/hazmat", "category": "exploration", "design_ref": "DESIGN.md 3/C09",
+    "technique": "bounded-exhaustive enumeration of tree nodes, decompositions, offsets and helper arguments on the real hazmat API vs spec model",
+    "text": "Every node of every tree of up to 20 (quick) / 40 (thorough) chunks is hashed through set_input_offset + six update splits + finalize_non_root and compared with the spec CV, in four modes (including new_from_context_key) at every SIMD level; every recursive decomposition of inputs up to 12 / 16 chunks is merged with merge_subtrees_non_root/_root/_root_xof; fixed power-of-two groupings up to 128 chunks; subtrees at chunk counters around 2^32, 2^33, 2^53 and 2^54-1; left_subtree_len and max_subtree_len on every argument up to 2^22 / 2^24 and around every power of two up to the end of their domains, against arithmetic definitions.",
+    "note": "Trusted: b3spec. Content restricted to stream A; decompositions wider than 16 chunks rest on compositionality from the per-node check.",
 }
 
 NOT_APPLICABLE = {("C%02d" % i): PENDING for i in range(1, 19)}
